@@ -213,8 +213,40 @@ class ProxyProjector:
     def interesting(self, kind, op, evs):
         return False
 
+    prev_parked = None
+    ambiguous = False
+
     def step(self, kind, op, a, b):
+        # A `release` aimed at a hook key where two or more threads are parked is ambiguous: which of them the
+        # harness wakes depends on goroutine scheduling at the instant they parked (same settle round), which the
+        # model does not represent. Nothing after such a release is compared in this case.
+        if self.ambiguous:
+            return None
         pa, pb = px_parse(a), px_parse(b)
+        if kind == 'release' and self.prev_parked is not None:
+            m = _re.match(r'release label=(\S+) key=(\S+)', op)
+            if m:
+                cands = sorted(x for x in self.prev_parked if x.startswith(m.group(1) + ':'))
+                if m.group(2) != '*':
+                    cands = [x for x in cands if x == m.group(1) + ':' + m.group(2)]
+                if cands and cands.count(cands[0]) >= 2:
+                    self.ambiguous = True
+                    return None
+        if pb is not None:
+            self.prev_parked = pb[2]
+        # Two deploys of one service that become runnable at the same virtual instant (e.g. their targets pass the
+        # same probe tick) race for the service's slot in the implementation; the model runs them in list order.
+        # Both outcomes are behaviours of the code, so from such a line on nothing is compared.
+        m = _re.match(r'(?:rollout-)?deploy c=(\d+) svc=(\S+)', op)
+        if m:
+            self.deploys = dict(getattr(self, 'deploys', {}))
+            self.deploys['c' + m.group(1)] = m.group(2)
+        if pb is not None:
+            done = [self.deploys.get(e.split(' ')[1]) for e in pb[1] if e.startswith('cmd ') and e.endswith('res=ok')
+                    and e.split(' ')[1] in getattr(self, 'deploys', {})]
+            if len(done) != len(set(done)):
+                self.ambiguous = True
+                return None
         if pa is None or pb is None:
             return a, b, False
         ea = sorted(x for x in (self.ev(e) for e in pa[1]) if x)
